@@ -58,6 +58,18 @@ def field_catalogue():
     return _catalogue
 
 
+_declared = None
+
+
+def declared_alternatives():
+    global _declared
+    if _declared is None:
+        import os
+        with open(os.path.join(os.path.dirname(os.path.dirname(os.path.abspath(__file__))), 'config_alt.json')) as f:
+            _declared = json.load(f)
+    return _declared
+
+
 SKIP_FIELDS = {('System', 'dime_enabled'), ('System', 'numba'), ('System', 'numba_parallel'), ('System', 'numba_nopython'),
                ('System', 'yapf_pycode'), ('TDS', 'qrt'), ('System', 'seed'), ('System', 'np_divide'), ('System', 'np_invalid'),
                ('System', 'dime_address'), ('System', 'dime_name'), ('PFlow', 'init_tds'), ('EIG', 'plot'), ('TDS', 'method')}
@@ -72,6 +84,15 @@ def plans(seed, tier, count):
         {'property': PROP, 'seed': 32, 'variant': 'attr_then_save', 'fields': [
             {'sec': 'TDS', 'field': 'tstep', 'value': 0.02, 'channel': 'attr'}, {'sec': 'PQ', 'field': 'p2p', 'value': 1.0, 'channel': 'attr'}]},
     ]
+    ref_alt = declared_alternatives()
+    j = 0
+    for key in sorted(ref_alt):
+        if any(isinstance(a, str) for a in ref_alt[key]['alt']):
+            sec, k = key.split('.')
+            for ch in ('option', 'rc'):
+                out.append({'property': PROP, 'seed': core.H('fix20rej', j), 'variant': 'rejected', 'fields': [], 'reject': 'out_of_alt',
+                            'reject_field': {'sec': sec, 'field': k, 'value': 'no_such_option', 'channel': ch}})
+                j += 1
     for i in range(count - len(out)):
         out.append({'stub': True, 'seed': core.H(seed, PROP, i), 'tier': tier})
     return out
@@ -119,9 +140,16 @@ def elaborate(stub):
     if variant == 'rejected':
         kinds = ['out_of_alt', 'no_section', 'two_equals']
         plan['reject'] = r.choice(kinds)
-        alts = [c for c in usable if isinstance(c[3], tuple) and all(isinstance(a, int) for a in c[3])]
-        sec, k, default, alt = r.choice(alts)
-        plan['reject_field'] = {'sec': sec, 'field': k, 'value': max(alt) + 7, 'channel': r.choice(['option', 'rc'])}
+        # alternatives as declared on the pinned tree (committed catalogue, not read from the tree under test: a change that
+        # loses declared alternatives must not blind the check)
+        ref_alt = declared_alternatives()
+        keys = sorted(k_ for k_ in ref_alt if (k_.split('.')[0], k_.split('.')[1]) not in SKIP_FIELDS or k_ == 'TDS.method')
+        strs = [k_ for k_ in keys if any(isinstance(a, str) for a in ref_alt[k_]['alt'])]
+        key = r.choice(strs) if r.random() < 0.35 else r.choice(keys)
+        alt = ref_alt[key]['alt']
+        bad = 'no_such_option' if any(isinstance(a, str) for a in alt) else max(alt) + 7
+        sec, k = key.split('.')
+        plan['reject_field'] = {'sec': sec, 'field': k, 'value': bad, 'channel': r.choice(['option', 'rc'])}
     if variant == 'truncated':
         plan['cut'] = r.random()
         for f in plan['fields']:
